@@ -140,11 +140,15 @@ P("C07", "proof", "Lean 4 invariant-by-induction over operation histories (model
   "set_extension as std defines them: truncate right after the file stem, append `.ext`) is compared with a real "
   "std::path::PathBuf on the same histories on every run.",
   "StdBuf's pop/set_file_name/set_extension use the model's Unix parent/file_name/file_stem queries (related to StdSpec "
-  "by C09/C12 theorems and to std by the StdBuf/std differential). extend / collect / join / with_file_name are repeated "
-  "or cloned pushes: checked by the oracle against std, not by a theorem. Extensions containing `/` are excluded (std "
+  "by C09/C12 theorems and to std by the StdBuf/std differential). extend / collect / join are repeated or cloned pushes (that reading of the code is checked by the oracle on every run, "
+  "with fused, non-fused and inexactly sized iterators); given it, Props/C07b proves for ALL item lists that extending related buffers keeps them related "
+  "(extend_refines, extend_comps), byte-identical when the last item is non-empty (extend_bytes), and that collected buffers are related "
+  "(collect_refines). with_file_name / with_extension are cloned set_file_name / set_extension (oracle against std). Extensions containing `/` are excluded (std "
   "panics on them). Model=code and StdBuf=std by differential testing.",
   theorems=["TP.C07.unix_history_refines", "TP.C07.I_comps_eq", "TP.C07.unix_history_bytes", "TP.C07.step_preserves",
-            "TP.C07.setExtension_trailing_sep"],
+            "TP.C07.setExtension_trailing_sep", "TP.C07b.extend_refines", "TP.C07b.extend_comps", "TP.C07b.extend_bytes",
+            "TP.C07b.collect_refines", "TP.C07b.join_refines"],
+  modules=["TypedPathVerif.Props.C07b"],
   rule="exhaustive histories of <= 2 ops over tiny arguments + seeded random histories; non-trivial = >= 2 ops; distinct by history", design_ref="§5 C07")
 
 P("C08", "proof", "Lean 4 theorems (model push = documented rule table, byte-exact) + model/code correspondence; component clause by oracle (known finding K3)",
